@@ -376,4 +376,23 @@ def run(tier):
     rep.check(ok, "float-spelling", "emit_node[FloatingPoint]",
               "floats are written with Display alone: 1.0 is emitted as `1` (reloads as an integer) and inf/NaN in a spelling that is not a core-schema float",
               site=en.span, detail={"display_on_float": disp, "debug_or_exp": dbg, "constants": sorted(consts)})
+    # literal block scalars (multiline_strings): the characters the emitter is willing to write raw into a block scalar must not be
+    # characters the scanner ends a line at (other than the line feed the emitter itself splits lines at), nor the end-of-input
+    # padding: table of the character test of is_valid_literal_block_scalar against the parser's is_break / is_breakz (both folded)
+    lit = [k for k in F.fns if k.startswith("saphyr::char_traits::is_valid_literal_block_scalar::{closure") and F.fns[k].arg_count == 2
+           and F.fns[k].locals[2]["ty"] == "char"]
+    rep.floor("character tests of the literal-block decision", len(lit), 1)
+    brk = fold.predicate_table(F, "saphyr_parser::char_traits::is_breakz")
+    for k in lit:
+        fo = fold.Folder(F)
+        wrong = []
+        try:
+            for cp in fold.ALPHABET:
+                if cp != 10 and cp in brk and fo.call(k, [("zst",), cp]):
+                    wrong.append("U+%04X" % cp)
+        except (fold.Unsupported, fold.Diverged) as ex:
+            rep.incomplete("cannot fold %s: %s" % (short(k), ex), F.fns[k].span)
+            continue
+        rep.check(not wrong, "literal-block-charset", short(k), "a string containing %s may be written raw into a literal block scalar, where the scanner reads it as "
+                  "a line break (or the end of input): the text does not load back" % ", ".join(wrong), site=F.fns[k].span)
     return rep
